@@ -19,6 +19,8 @@ def c12_relevant(kind, rec, case):
 
 def c01_relevant(kind, rec, case):
     # every solution handed out by any entry point
+    if kind == "fix":
+        return True  # exact propagation correspondence up to and including the solution state
     return kind in ("sol", "asol", "partial") or (kind in ("subset", "solset") and False)
 
 
@@ -114,9 +116,11 @@ PROPS = {
     "C01": {
         "streams": [
             {"name": "answers", "mode": "answers", "quick": 400, "thorough": 12000, "args": ["--mix", ALL_SCEN]},
+            {"name": "fix", "mode": "fix", "quick": 1200, "thorough": 30000, "args": []},
         ],
         "relevant": c01_relevant,
-        "level_text": "Proof: Lean theorems state that an accepted solution lies in the declared domains and satisfies every constraint under the Spec semantics (views, half/full reification), and that acceptance = membership in the verified oracle `solutions`. Tie to code: every solution handed out by satisfy / iterator / assumptions / optimise (result and callbacks) of the real solver on generated models is judged by that verified acceptor.",
+        "lean_modules": ["Pumpkin.Model.Propagation", "Pumpkin.Model.PropagationChecks"],
+        "level_text": "Proof: fixed_fixpoint_is_solution — over the propagator models of Model/Propagation.lean, a state in which every variable is fixed and whose propagation fixpoint reports no conflict satisfies the WHOLE model (pass_checks: at a full assignment every modelled propagator decides its constraint — LinearLeq, LinearNe, IntAbs, Maximum, IntTimes, Division, Element, clauses, reified wrapper; compile_bwd / compile_fwd: the decomposition into propagators has exactly the constraint's meaning), for every model of the modelled kinds; solution_is_fixed_fixpoint is the converse. Tied exactly by the `fix` records (the state at every decision point of real solves, the last one of a satisfiable solve being the solution state, equals the model's fixpoint). Lean theorems state that an accepted solution lies in the declared domains and satisfies every constraint under the Spec semantics (views, half/full reification), and that acceptance = membership in the verified oracle `solutions`. Tie to code: every solution handed out by satisfy / iterator / assumptions / optimise (result and callbacks) of the real solver on generated models is judged by that verified acceptor.",
         "level_note": LEVEL_NOTE_COMMON + "Not modelled line by line: search loop, 2-watch scheme, time-table bookkeeping (covered only through the answers they produce).",
         "assumptions": [
             "solutions are judged by Model.sat of lean/Pumpkin/Spec/Basic.lean (the documented meaning of each constraint)",
